@@ -80,6 +80,9 @@ def b_rules(p: Project, rep: Report):
                 rep.check("B-R2", f"{clsname}.__init__:setattr:inside-wrapping-try", inside, "fields are stored outside the try that converts ValueError into OFXHeaderError" if not inside else "", hloc(p, c))
             stores = []
             pnames_to_check = []
+        elif not stores:
+            rep.note(f"B-R2 undecided for {clsname}: __init__ stores no field directly (fields are set elsewhere)")
+            pnames_to_check = []
         else:
             pnames_to_check = pnames
         stored = {}
@@ -240,19 +243,53 @@ def b_rules(p: Project, rep: Report):
     mfn = _flat(p, HEADER, mfn0)
     mparams = params_of(mfn0)
     mx = Expander(mfn)
-    ok = False
-    for sub in [x for x in own_nodes(mfn) if isinstance(x, ast.Subscript) and isinstance(x.ctx, ast.Load)]:
+    mdefs = local_defs(mfn)
+
+    def major_of(e, depth=4):
+        """normal form of the routing index: 'int(<x>) // 100' when recognisable"""
+        e = mx.x(e)
+        if isinstance(e, ast.BinOp) and isinstance(e.op, ast.FloorDiv) and text(e.right) == "100":
+            return f"{mx.t(e.left)} // 100"
+        if isinstance(e, ast.Subscript) and isinstance(e.value, ast.Call) and text(e.value.func) == "divmod" and text(e.slice) == "0" and len(e.value.args) == 2 and text(e.value.args[1]) == "100":
+            return f"{mx.t(e.value.args[0])} // 100"
+        if isinstance(e, ast.Name) and depth > 0:
+            for d in mdefs.get(e.id, []):
+                if d.kind == "unpack" and d.index == 0 and isinstance(d.value, ast.Call) and text(d.value.func) == "divmod" and len(d.value.args) == 2 and text(d.value.args[1]) == "100":
+                    return f"{mx.t(d.value.args[0])} // 100"
+        return None
+
+    ok = None
+    routed_names = set()
+    for sub in [x for x in ast.walk(mfn) if isinstance(x, ast.Subscript) and isinstance(x.ctx, ast.Load)]:
         d = mx.x(sub.value)
         if isinstance(d, ast.Dict):
             mp = {k.value: text(v) for k, v in zip(d.keys, d.values) if isinstance(k, ast.Constant)}
             if set(mp.values()) == {"OFXHeaderV1", "OFXHeaderV2"}:
-                ok = mp == {1: "OFXHeaderV1", 2: "OFXHeaderV2"} and mx.t(sub.slice) == f"int({mparams[0]}) // 100"
-    rep.check("B-R3", "make_header:routing-table", ok, "versions are not routed {1: OFXHeaderV1, 2: OFXHeaderV2}[int(version) // 100]" if not ok else "", hloc(p, mfn))
+                mj = major_of(sub.slice)
+                if mj is None:
+                    rep.note(f"B-R3 undecided: routing index {mx.t(sub.slice)[:60]} not recognised")
+                    ok = None
+                else:
+                    ok = mp == {1: "OFXHeaderV1", 2: "OFXHeaderV2"} and mj == f"int({mparams[0]}) // 100"
+                par_ = parent(sub)
+                if isinstance(par_, (ast.Assign, ast.AnnAssign)):
+                    t_ = par_.targets[0] if isinstance(par_, ast.Assign) else par_.target
+                    if isinstance(t_, ast.Name):
+                        routed_names.add(t_.id)
+                if isinstance(par_, ast.Call) and par_.func is sub:
+                    routed_names.add("<direct>")
+    if ok is not None:
+        rep.check("B-R3", "make_header:routing-table", ok, "versions are not routed {1: OFXHeaderV1, 2: OFXHeaderV2}[int(version) // 100]" if not ok else "", hloc(p, mfn))
+    elif not routed_names:
+        rep.note("B-R3 undecided: no {1: OFXHeaderV1, 2: OFXHeaderV2} routing table found in make_header")
     for exc in ("ValueError", "KeyError"):
         hs = [h for t in own_statements(mfn) if isinstance(t, ast.Try) for h in t.handlers if h.type is not None and exc in text(h.type)]
         ok = bool(hs) and all(any(isinstance(x, ast.Raise) and x.exc is not None and "OFXHeaderError" in text(x.exc) for x in ast.walk(h)) for h in hs)
         rep.check("B-R3", f"make_header:{exc}->OFXHeaderError", ok, f"{exc} (non-numeric / unsupported version) is not turned into OFXHeaderError" if not ok else "", hloc(p, mfn))
-    calls = [c for c in own_nodes(mfn) if isinstance(c, ast.Call) and isinstance(c.func, ast.Name) and isinstance(mx.x(c.func), ast.Subscript)]
+    calls = [c for c in ast.walk(mfn) if isinstance(c, ast.Call) and ((isinstance(c.func, ast.Name) and (isinstance(mx.x(c.func), ast.Subscript) or c.func.id in routed_names)) or isinstance(c.func, ast.Subscript))]
+    if not calls:
+        rep.note("B-R3 undecided: the call of the routed header class was not found")
+        return
     ok = bool(calls) and all(c.args and mx.t(c.args[0]) == mparams[0] and {k.arg: mx.t(k.value) for k in c.keywords} == {q: q for q in mparams[1:]} for c in calls)
     rep.check("B-R3", "make_header:passes-arguments", ok, "" if ok else "make_header does not pass version, security, oldfileuid, newfileuid through under their own names", hloc(p, mfn))
 
